@@ -229,6 +229,52 @@ def rule_s3(ctx):
     ctx.check(ok, "S3-state-keys", f"{LANG}:SMTFormula.__setstate__", "restores __dict__ and formula", site(ss), "__setstate__ must restore the attribute dict and the parsed formula", "dict and formula restored")
 
 
+def _braced_escape_digits(pattern: str):
+    """(min, max) number of hex digits the pattern accepts between `\\u{` and `}` - the widest alternative; None if there is no such alternative."""
+    import re._parser as sp
+    import re._constants as sc
+
+    try:
+        tree = sp.parse(pattern)
+    except Exception:
+        return None
+    def expand(seq):
+        """flat alternatives of a sequence (the parser factors common prefixes out of a top-level alternation into LITERAL ... BRANCH)"""
+        outs = [[]]
+        for op, a in seq:
+            if op is sc.BRANCH:
+                subs = [e for alt in a[1] for e in expand(list(alt))]
+                outs = [o + e for o in outs for e in subs]
+            else:
+                outs = [o + [(op, a)] for o in outs]
+            if len(outs) > 64:
+                return []
+        return outs
+
+    alts = expand(list(tree))
+    best = None
+    for alt in alts:
+        items = list(alt)
+        lits = [chr(a) if op is sc.LITERAL else None for op, a in items]
+        if lits[:3] != ["\\", "u", "{"] or lits[-1:] != ["}"] or len(items) != 5:
+            continue
+        op, a = items[3]
+        if op is sc.SUBPATTERN:
+            inner = list(a[3])
+            if len(inner) != 1:
+                continue
+            op, a = inner[0]
+        if op not in (sc.MAX_REPEAT, sc.MIN_REPEAT):
+            continue
+        lo, hi, body = a
+        if len(body) != 1 or body[0][0] is not sc.IN:
+            continue
+        hi = int(hi) if hi is not sc.MAXREPEAT else 1 << 30
+        if best is None or hi > best[1]:
+            best = (int(lo), hi)
+    return best
+
+
 def rule_s5(ctx, rule_prefix="S5", with_escape_char=True):
     """Sanitiser flow: text handed to z3.parse_smt2_string (byte-oriented) must be ASCII-escaped; the writer's escape character must itself be escaped."""
     n = 0
@@ -259,6 +305,17 @@ def rule_s5(ctx, rule_prefix="S5", with_escape_char=True):
     t = " ".join(src(g).split())
     full = "re.sub(" in t and "[0-9a-fA-F]*" in t and "chr(int(" in t
     only_null = ".replace('\\\\u{}', '\\x00')" in t and not full
+    if not full and not only_null and "re.sub(" in t and "chr(int(" in t:
+        # another pattern: decide it on the regular expression's syntax tree - the braced escape \u{h...} must accept 0 (NUL is printed as \u{}) up to at least 5 hex
+        # digits (Z3 characters range to U+2FFFF and as_string() prints \u{1f600})
+        sub = next((c for c in calls_in(g) if call_name(c) == "re.sub" and c.args and isinstance(c.args[0], ast.Constant) and isinstance(c.args[0].value, str)), None)
+        rng = _braced_escape_digits(sub.args[0].value) if sub is not None else None
+        if rng is not None:
+            lo, hi = rng
+            ctx.check(lo == 0 and hi >= 5, f"{rule_prefix}-as-string-unescaped", f"{Z3H}:smt_string_val_to_string", "braced escape \\u{...} accepts 0 to >= 5 hex digits", site(sub),
+                      f"the unescape pattern accepts {lo}..{hi} hex digits inside \\u{{...}}: Z3's as_string() prints NUL as \\u{{}} and characters above U+FFFF with five digits (\\u{{1f600}}), "
+                      "which then stay in the value as 9 literal characters (the solver's string for an emoji terminal no longer parses)", f"{lo}..{hi if hi < 1 << 16 else 'unbounded'} digits")
+            full = True
     if not full and not only_null:
         raise Unrecognised("C17.S5", f"{Z3H}:smt_string_val_to_string", "unescape shape not recognised")
     ctx.check(full, f"{rule_prefix}-as-string-unescaped", f"{Z3H}:smt_string_val_to_string", "all \\u{...} escapes of as_string() are undone", site(g),
